@@ -121,6 +121,15 @@ theorem C03_maxPathBeam_terminates (g : G D) (beam : Nat) (score : D → Int) (h
       beamLoop g score beam fuel (beamInit g score) = beamLoop g score beam (g.nodes.length + 2) (beamInit g score) :=
   ⟨maxPathBeam_returns g beam score hne, fun fuel hf => maxPathBeam_fuel g beam score fuel hf⟩
 
+/-- **the beam search returns** on every non-empty graph whose recorded extensions all resolve (every side that records an
+    extension has an edge), for every beam width ≥ 1.  (With a dangling extension the search can drop its only state and
+    `states[0]` panics — node `ACGT`, right extension `A` recorded, no such node: confirmed on the crate; `max_path` has no
+    such problem.  Pruned pipeline graphs are resolving: `Compress.PGraph.resolving`.) -/
+theorem C03_maxPathBeam_returns (g : G D) (hr : Resolving g) (hne : g.nodes.isEmpty = false) (beam : Nat) (hb : 1 ≤ beam)
+    (score : D → Int) : ∃ path, maxPathBeam g beam score = some path ∧ IsTrail g path := by
+  obtain ⟨path, h⟩ := maxPathBeam_some g hr hne beam hb score
+  exact ⟨path, h, maxPathBeam_trail g beam score path h⟩
+
 /-- **C03 (symmetry).** In every graph satisfying the node-level invariant `GInv` (nodes of at least K bases, terminal
     k-mers identify their node and side, extensions reciprocal — a palindromic single-k-mer node records them from either
     strand): whenever `(v, s, f)` is reported from side `d` of `u`, node `v` reports `u` back, from the facing side `s`
